@@ -1,14 +1,13 @@
-(* C21: StridedInterval.zero_extend only relabels the width.  That is sound for an interval that does not wrap around
-   (lower bound <= upper bound) and not for one that does. *)
+(* C21: StridedInterval.zero_extend.  Relabelling the width is sound for an interval that does not wrap around
+   (lower bound <= upper bound) and not for one that does (the pinned rule); the repaired function splits a wrapping interval
+   first and is sound for every interval. *)
 From Coq Require Import ZArith List Bool Lia.
-Require Import CV.Model.PyPrelude CV.Model.SI CV.Proofs.SISound.
+Require Import CV.Model.PyPrelude CV.Gen.SIHelpers CV.Model.SI CV.Model.SICmp CV.Model.SIUnion CV.Model.SIZextM.
+Require Import CV.Proofs.SISound CV.Proofs.SICmpSound CV.Proofs.SIUnionSound.
 Import ListNotations.
 Open Scope Z_scope.
 
-(* zero_extend(new_length): a copy with _bits = new_length *)
-Definition si_zext (a : si) (n : Z) : si := mkSI n (stride a) (lb a) (ub a) (bot a).
-
-Theorem zext_sound a n x : wf a -> lb a <= ub a -> bits a <= n -> gamma a x -> gamma (si_zext a n) x.
+Lemma relabel_sound a n x : wf a -> lb a <= ub a -> bits a <= n -> gamma a x -> gamma (relabel a n) x.
 Proof.
   intros (Hb & Hw & Hs & Hl & Hu) Hle Hn (Hbot & k & Hk & Hks & Hx).
   assert (Hp : 0 < 2 ^ bits a) by (apply Z.pow_pos_nonneg; lia).
@@ -16,15 +15,74 @@ Proof.
   assert (Hspan : span a = ub a - lb a) by (unfold span; apply Z.mod_small; lia).
   rewrite Hspan in Hks.
   assert (Hx' : x = lb a + k * stride a) by (rewrite Hx; apply Z.mod_small; nia).
-  split; [exact Hbot|]. exists k. split; [exact Hk|]. unfold span, si_zext. cbn [bits stride lb ub].
+  split; [exact Hbot|]. exists k. split; [exact Hk|]. unfold span, relabel. cbn [bits stride lb ub].
   rewrite (Z.mod_small (ub a - lb a)) by lia. split; [exact Hks|]. rewrite Hx'. symmetry. apply Z.mod_small. nia.
 Qed.
 
-(* the wrapping interval 2-bit 3[1, 0] = {1, 0} loses its member 0 when relabelled to 3 bits: 3[1, 0] = {1, 4, 7} *)
+Lemma relabel_wf a n : wf a -> bits a <= n < SHIFT_LIMIT -> wf (relabel a n).
+Proof.
+  intros (Hb & Hw & Hs & Hl & Hu) Hn.
+  assert (Hpn : 2 ^ bits a <= 2 ^ n) by (apply Z.pow_le_mono_r; lia).
+  unfold wf, relabel; cbn [bot bits stride lb ub]. repeat split; try lia; assumption.
+Qed.
+
+(* every piece of _ssplit is a well-formed interval of the same width *)
+Lemma ssplit_wf a ps : wf a -> ssplit a = Ok ps -> Forall (fun p => wf p /\ bits p = bits a) ps.
+Proof.
+  intros Hwf Hps. pose proof Hwf as (Hb & Hw & Hs & Hl & Hu).
+  unfold ssplit in Hps. rewrite max_int_ok in Hps by lia. cbn [bind] in Hps.
+  destruct (ub a <? lb a).
+  - destruct (py_mod _ _) as [r| | |]; try discriminate. cbn [bind] in Hps.
+    destruct (mk_sound (bits a) (stride a) (lb a) (2 ^ bits a - 1 - r) Hw Hs) as (A & EA & WA & BA & _).
+    rewrite EA in Hps. cbn [bind] in Hps.
+    destruct (si_modular_add _ _ _) as [bl| | |]; try discriminate. cbn [bind] in Hps.
+    destruct (mk_sound (bits a) (stride a) bl (ub a) Hw Hs) as (B & EB & WB & BB & _).
+    rewrite EB in Hps. cbn [bind] in Hps. inversion Hps.
+    constructor; [split; assumption|]. constructor; [split; assumption|]. constructor.
+  - inversion Hps. constructor; [split; [exact Hwf|reflexivity]|]. constructor.
+Qed.
+
+Lemma plain_gamma p x : wf p -> plain_member p x -> gamma p x.
+Proof.
+  intros (Hb & Hw & Hs & Hl & Hu) (Hlu & j & Hj & Hx & Hxu).
+  split; [exact Hb|]. exists j. split; [exact Hj|]. unfold span. rewrite Z.mod_small by lia.
+  split; [lia|]. rewrite <- Hx. symmetry. apply Z.mod_small. lia.
+Qed.
+
+Theorem zext_sound a n r x : wf a -> bits a <= n < SHIFT_LIMIT -> si_zext a n = Ok r -> gamma a x ->
+  wf r /\ bits r = n /\ gamma r x.
+Proof.
+  intros Hwf Hn Hr Hg. pose proof Hwf as (Hb & Hw & _). unfold si_zext in Hr. rewrite Hb in Hr. cbn [orb] in Hr.
+  destruct (lb a <=? ub a) eqn:E.
+  - apply Z.leb_le in E. inversion Hr; subst r. split; [apply relabel_wf; assumption|]. split; [reflexivity|].
+    apply relabel_sound; [exact Hwf|exact E|lia|exact Hg].
+  - destruct (ssplit a) as [ps| | |] eqn:Eps; try discriminate. cbn [bind] in Hr.
+    destruct (ssplit_cover a ps x Hwf Eps Hg) as (p & Hin & Hwp & Hbp & Hm).
+    pose proof (ssplit_wf a ps Hwf Eps) as Hall.
+    assert (Hlive : In p (filter (fun p => negb (ub p <? lb p)) ps)).
+    { apply filter_In. split; [exact Hin|]. destruct Hm as (Hlu & _). destruct (Z.ltb_spec (ub p) (lb p)); [lia|reflexivity]. }
+    assert (Hgp : gamma (relabel p n) x).
+    { apply relabel_sound; [exact Hwp|exact (proj1 Hm)|lia|exact (plain_gamma p x Hwp Hm)]. }
+    assert (Hall' : Forall (fun p => wf p /\ bits p = bits a) (filter (fun p => negb (ub p <? lb p)) ps)).
+    { rewrite Forall_forall in *. intros q Hq. apply filter_In in Hq. exact (Hall q (proj1 Hq)). }
+    destruct (filter (fun p => negb (ub p <? lb p)) ps) as [|p1 [|p2 [|p3 l]]]; try discriminate.
+    + destruct Hlive as [<-|[]]. inversion Hr; subst r.
+      split; [apply relabel_wf; [exact Hwp|lia]|]. split; [reflexivity|exact Hgp].
+    + inversion Hall' as [|? ? (W1 & B1) Hall2]; subst. inversion Hall2 as [|? ? (W2 & B2) _]; subst.
+      destruct (union_sound (relabel p1 n) (relabel p2 n) (relabel_wf p1 n W1 ltac:(lia)) (relabel_wf p2 n W2 ltac:(lia)) eq_refl)
+        as (u & Hu & Wu & Bu & Gu).
+      rewrite Hu in Hr. inversion Hr; subst r. split; [exact Wu|]. split; [exact Bu|]. apply Gu.
+      destruct Hlive as [<-|[<-|[]]]; [left|right]; exact Hgp.
+Qed.
+
+(* the pinned rule (relabelling only): the wrapping interval 2-bit 3[1, 0] = {1, 0} loses its member 0 when relabelled to
+   3 bits, 3[1, 0] = {1, 4, 7}; the repaired function returns 1[0, 1] *)
 Theorem zext_wrapping_refuted :
-  let a := mkSI 2 3 1 0 false in wf a /\ gamma a 0 /\ ~ In 0 (members (si_zext a 3)).
+  let a := mkSI 2 3 1 0 false in wf a /\ gamma a 0 /\ ~ In 0 (members (relabel a 3)) /\
+  exists r, si_zext a 3 = Ok r /\ In 0 (members r) /\ In 1 (members r).
 Proof.
   cbv zeta. split; [repeat split; cbn; unfold SHIFT_LIMIT; lia|]. split.
   - split; [reflexivity|]. exists 1. cbn. repeat split; lia.
-  - vm_compute. intros [H|[H|[H|[]]]]; discriminate H.
+  - split; [vm_compute; intros [H|[H|[H|[]]]]; discriminate H|].
+    eexists. split; [vm_compute; reflexivity|]. vm_compute. tauto.
 Qed.
